@@ -299,6 +299,7 @@ func c01Scenarios(thorough bool) []c01Scn {
 	// S4 / S9 (ForceFlush against Shutdown; a Shutdown cut short, then another): in the quick tier
 	// with the smallest configuration only -- they are where the two recorded findings show
 	s = append(s,
+		c01Scn{"S12", [][]string{{"F"}, {"E:s1", "F"}}, []string{"S"}}, // two ForceFlush calls in flight, a span ended between them
 		c01Scn{"S4", [][]string{{"E:s1"}, {"F"}, {"S"}}, nil},
 		c01Scn{"S9", [][]string{{"E:s1", "E:s2"}, {"Sc"}}, []string{"S"}},
 	)
@@ -331,6 +332,9 @@ func TestVerifC01(t *testing.T) {
 				continue // real spans have many more scheduling points: two configurations only
 			}
 			if !thorough && (sc.name == "S4" || sc.name == "S9") && c.String() != "q1b1" {
+				continue
+			}
+			if !thorough && sc.name == "S12" && !(c.String() == "q2b1" || c.String() == "q3b2") {
 				continue
 			}
 			jobs = append(jobs, sc.name+"/"+c.String())
